@@ -267,6 +267,9 @@ def run(ctx):
         sample = sample[:(30 if thorough else 10)]
         if p["name"].startswith("long"):
             sample = sample[:3]
+        # a crash inside the 12-byte header of a new file: the append-mode Open must start the file afresh
+        torn_hdr = [c for c in cuts if 0 < c[0] < 12]
+        sample += torn_hdr if (thorough or wi < 3) else torn_hdr[:2]
         for (a, d, kind) in sample:
             ops2 = [o for o in gen_workload(rng, rng.choice([1, 2, 3]), data_p=0.5, small=True) if o[0] == "i"]
             lines.append("image %d %d" % (a, d))
